@@ -72,6 +72,8 @@ var (
 
 	// Deadlock is set when no goroutine is enabled while some are unfinished.
 	Deadlock bool
+	// Diverged is set when Script did not fit the execution (a scripted choice out of range).
+	Diverged string
 	// ChildPanics collects panics that escaped spawned goroutines (fatal for a real process).
 	ChildPanics []string
 	// Points counts scheduling points of the current execution, Spawned the goroutines started.
@@ -95,13 +97,17 @@ func newThread() *thread {
 //go:norace
 func Begin() {
 	for _, t := range threads {
-		t.h.close()
+		// a goroutine leaked by a deadlocked execution may be parked on its handle or about to
+		// park: its handle stays open (descriptor numbers must not be reused under it)
+		if t.done || t.id == 0 {
+			t.h.close()
+		}
 	}
 	threads, alive = nil, 0
 	endWG = new(sync.WaitGroup)
 	Rec = nil
 	chanReset()
-	Deadlock, ChildPanics, Points, Spawned, Unfinished = false, nil, 0, 0, 0
+	Deadlock, ChildPanics, Points, Spawned, Unfinished, Diverged = false, nil, 0, 0, 0, ""
 	cur = newThread()
 	Active = true
 }
@@ -290,7 +296,11 @@ func choose(n int, preempt bool) int {
 	if i := len(Rec); i < len(Script) {
 		c = Script[i]
 		if c < 0 || c >= n {
-			panic(ReplayDivergence{fmt.Sprintf("choice point %d: scripted choice %d of %d", i, c, n)})
+			// not a panic: this may be a spawned goroutine; the explorer checks Diverged after End
+			if Diverged == "" {
+				Diverged = fmt.Sprintf("choice point %d: scripted choice %d of %d", i, c, n)
+			}
+			c = 0
 		}
 	}
 	Rec = append(Rec, SchedPoint{n, c, preempt})
